@@ -2,7 +2,7 @@
     Statements only; proofs in Proofs/Builder_Proofs.v. *)
 From Coq Require Import ZArith QArith Qround Qabs List Lia.
 From SB Require Import Base.Prelude Base.Num Base.F32 Gen.Generated Model.Codec Model.Traj Model.Utils Model.Rth Model.Builder
-  Proofs.Builder_Proofs Proofs.Utils_Proofs.
+  Proofs.Builder_Proofs Proofs.Utils_Proofs Proofs.BuilderFast_Proofs.
 Import ListNotations.
 Local Open Scope Z_scope.
 
@@ -91,3 +91,10 @@ Proof. exact Builder_Proofs.builder_example. Qed.
 Print Assumptions builder_init_invalid.
 Print Assumptions set_start_after_segment_fails.
 Print Assumptions builder_example.
+
+(** The correspondence runs holds of days (tens of thousands of 60 s segments)
+    through the closed form [hold_fast]; it is the transcription of the C loop
+    for every builder and every duration. *)
+Theorem hold_closed_form : forall b dur, hold_position_for b dur = hold_fast b dur.
+Proof. exact BuilderFast_Proofs.hold_fast_eq. Qed.
+Print Assumptions hold_closed_form.
